@@ -8,7 +8,7 @@ import ast
 import z3
 
 from . import smt
-from .values import (Sym, SInt, SBool, SVal, SKey, SSeq, SView, SMap, SObj, ClassRef, Closure, BoundMethod,
+from .values import (Sym, SInt, SBool, SVal, SKey, SSeq, SView, SMap, SSet, SObj, ClassRef, Closure, BoundMethod,
                      Builtin, AbstractCallable, PyExc, OutOfSubset, LazyDict, unmap)
 
 NotImpl = NotImplemented
@@ -256,7 +256,24 @@ class Ops(object):
             if h is None:
                 raise OutOfSubset('dict.%s() on symbolic dict without an order model' % name)
             return h(it, m)
-        tbl = {'get': m_get, 'pop': m_pop, 'clear': m_clear, 'keys': m_view, 'values': m_view, 'items': m_view}
+        def m_copy(it, args, kw):
+            if getattr(m, 'is_set', False):
+                return SSet(m.dom, m.size, m.ksort)
+            return SMap(m.dom, m.val, m.size, m.ksort, m.vsort)
+
+        def m_discard(it, args, kw):
+            kt = it.as_term(args[0], m.ksort)
+            m.size = z3.simplify(z3.If(z3.Select(m.dom, kt), m.size - 1, m.size))
+            m.dom = z3.Store(m.dom, kt, False)
+
+        def m_add(it, args, kw):
+            kt = it.as_term(args[0], m.ksort)
+            m.size = z3.simplify(z3.If(z3.Select(m.dom, kt), m.size, m.size + 1))
+            m.dom = z3.Store(m.dom, kt, True)
+        if getattr(m, 'is_set', False):
+            tbl = {'copy': m_copy, 'discard': m_discard, 'add': m_add, 'clear': m_clear}
+        else:
+            tbl = {'get': m_get, 'pop': m_pop, 'clear': m_clear, 'keys': m_view, 'values': m_view, 'items': m_view, 'copy': m_copy}
         if name not in tbl:
             raise OutOfSubset('dict.%s on symbolic dict' % name)
         return Builtin('dict.' + name, tbl[name])
